@@ -246,7 +246,7 @@ fn special_queries(def: &AppDef) -> Vec<(String, Value, bool)> {
     }
     let _ = m;
     if def.name == "vertex_rtree" || def.name == "edge_rtree" || def.name == "load_balancer_haversine" {
-        for (i, (x, y)) in [(181.0, 0.0), (0.0, 91.0), (-181.0, -91.0), (1e30, 0.0), (0.0, 50.0)].iter().enumerate() {
+        for (i, (x, y)) in [(181.0, 0.0), (0.0, 91.0), (-181.0, -91.0), (1e30, 0.0), (0.0, 50.0), (0.0, 1e39), (1e39, 0.0), (-1e300, 1e300), (f64::MAX, f64::MIN_POSITIVE)].iter().enumerate() {
             let mut q = def.bases[0].clone();
             q["origin_x"] = json!(x);
             q["origin_y"] = json!(y);
